@@ -1,0 +1,42 @@
+// Copyright © 2022-2026 Obol Labs Inc. Licensed under the terms of a Business Source License 1.1
+
+//go:build verif
+
+// Verification contracts (comments only; read by /verif/govc, never compiled into charon).
+package eth2wrap
+
+// ---- C19: multi-node beacon client ------------------------------------------------------------
+
+//@ pure strings.Contains error.Error forkjoin.WithWorkers forkjoin.WithoutFailFast isSuccessFunc
+
+//@ func isTimeoutError
+//@ props C19
+//@ pure
+//@ ensures result <==> strings.Contains(err.Error(), "http request timeout") || strings.Contains(err.Error(), "client is not active") || strings.Contains(err.Error(), "context deadline exceeded")
+
+//@ func isSyncingError
+//@ props C19
+//@ pure
+//@ ensures result <==> strings.Contains(err.Error(), "syncing") || strings.Contains(err.Error(), "HeadBlockNotFullyVerified")
+
+//@ func isBadGateway
+//@ props C19
+//@ pure
+//@ ensures err == nil ==> !result
+//@ loop 1 invariant true
+
+// provide: the fork-join over a group uses one worker per member of THAT group and no fail-fast
+// (assumed contract of forkjoin.New, A-FORKJOIN: results are then yielded as soon as each member answers);
+// the fallback group is consulted iff the primary round failed with an unavailability-class error.
+//@ func provide
+//@ props C19
+//@ callreq forkjoin.New: len(a3) == 2 && a3[0] == forkjoin.WithoutFailFast() && a3[1] == forkjoin.WithWorkers(len(inner(clients)))
+//@ callreq forkjoin.New: a1 == ctx
+//@ callreq fork: a1.client == inner(client)
+//@ callreq bestSelector.Increment: inner(res).Err == nil && isSuccessFunc(inner(res).Output)
+//@ ensures ncalls(runForkJoin) == 1 || ncalls(runForkJoin) == 2
+//@ ensures ncalls(runForkJoin) == 2 <==> (err != nil && len(fallbacks) != 0 && (isTimeoutError(err) || isSyncingError(err) || isBadGateway(err)))
+//@ ensures ncalls(runForkJoin) == 1 ==> r0 == output && r1 == err
+//@ ensures ncalls(fork) == len(clients) + ite(ncalls(runForkJoin) == 2, len(fallbacks), 0)
+//@ loop 1 invariant ncalls(fork) == atentry(ncalls(fork)) + $i
+//@ loop 2 invariant true
